@@ -80,12 +80,10 @@ func flex(src string) []ftok {
 
 func (t ftok) is(w string) bool { return t.kind == 'w' && strings.EqualFold(t.text, w) }
 func (t ftok) p(s string) bool  { return t.kind == 'p' && t.text == s }
-func (t ftok) ident() string {
-	if t.kind == 'q' {
-		return t.text
-	}
-	return strings.ToLower(t.text)
-}
+
+// ident is the name an identifier token stands for. SQLite resolves names case-insensitively whether
+// or not they are quoted, and the export quotes every name, so names are compared in lower case.
+func (t ftok) ident() string { return strings.ToLower(t.text) }
 
 // identList reads "( a, b )" starting at toks[i] and returns the names and the index after ")".
 func identList(toks []ftok, i int) ([]string, int) {
